@@ -169,3 +169,57 @@ def source_spec(rng, feats, form=None, d=DEFAULT_GFF3, name=None, forms=("path",
     else:
         spec["lines"] = lines_of(feats, d)
     return spec
+
+
+# ----------------------------------------------------------------------------- GTF annotations
+
+
+def gtf_annotation(rng, cfg=None):
+    """Genes / transcripts / exons / CDS with both ids on every line; one seqid+strand per gene
+    (C03: 'on the exons' seqid and strand').  Options: explicit gene/transcript lines,
+    transcripts without exons, shuffled line order."""
+    cfg = cfg or {}
+    pool = cfg.get("pool") or [1, 5, 10, 20, 30, 40, 50, 60]
+    n_genes = rng.randint(1, cfg.get("max_genes", 3))
+    sub = cfg.get("subfeature", "exon")
+    tk = cfg.get("transcript_key", "transcript_id")
+    gk = cfg.get("gene_key", "gene_id")
+    feats = []
+    tcount = 0
+    for gi in range(n_genes):
+        g = "G%d" % (gi + 1)
+        seqid = rng.choice(cfg.get("seqids", ["chr1", "chr2"]))
+        strand = rng.choice(["+", "-"])
+        glines = []
+        for ti in range(rng.randint(1, cfg.get("max_tx", 2))):
+            tcount += 1
+            t = "T%d" % tcount
+            n_ex = rng.choice(cfg.get("n_exons", [0, 1, 1, 2, 3]))
+            spans = []
+            for _ in range(n_ex):
+                s, e = rand_span(rng, pool)
+                spans.append((s, e))
+                attrs = [[gk, [g]], [tk, [t]]]
+                if rng.random() < 0.4:
+                    attrs.append(["exon_number", [str(len(spans))]])
+                glines.append(mf([seqid, "src", sub, s, e, ".", strand, "."], attrs))
+            for _ in range(rng.choice([0, 0, 1, 2])):
+                s, e = rand_span(rng, pool)
+                glines.append(mf([seqid, "src", rng.choice(["CDS", "start_codon"]), s, e, ".", strand,
+                                  rng.choice(["0", "1", "."])], [[gk, [g]], [tk, [t]]]))
+            if cfg.get("explicit_tx") and rng.random() < 0.6:
+                if spans and not cfg.get("explicit_odd"):
+                    s, e = min(a for a, _ in spans), max(b for _, b in spans)
+                else:
+                    s, e = rand_span(rng, pool)
+                glines.append(mf([seqid, cfg.get("explicit_source", "src"), "transcript", s, e, ".", strand, "."],
+                                 [[gk, [g]], [tk, [t]]]))
+        if cfg.get("explicit_gene") and rng.random() < 0.6:
+            s, e = rand_span(rng, pool)
+            glines.append(mf([seqid, cfg.get("explicit_source", "src"), "gene", s, e, ".", strand, "."], [[gk, [g]]]))
+        if cfg.get("shuffle_within"):
+            rng.shuffle(glines)
+        feats.extend(glines)
+    if cfg.get("shuffle"):
+        rng.shuffle(feats)
+    return feats
